@@ -527,7 +527,7 @@ def run_sweep(res, tier):
         ranges = [(i * step, (i + 1) * step) for i in range(64)]
     else:
         ranges = [(0, 250000), (11000000, 11250000), (12300000, 12400000), (87600000, 87700000), (99750000, 100000000)] + \
-                 [(d * 11111111 - 50000, d * 11111111 + 50000) for d in range(1, 10)]
+                 [(d * 11111111 - 50000, min(10 ** 8, d * 11111111 + 50000)) for d in range(1, 10)]
     lines = ["w%d sweep %d %d" % (i, lo, hi) for i, (lo, hi) in enumerate(ranges)]
     go = core.shard_run(os.path.join(core.BUILD, "hcdrv"), "config", lines, timeout=5400)
     n = acc = 0
